@@ -169,7 +169,9 @@ def sciN (fmt : Format) (feats : Features) (need : Nat) (ds : List Nat) (sciExp 
   let d0 ← b.get 1
   let b ← b.set 0 d0
   let b ← b.set 1 o.dp
-  let r ← sciBody fmt tr.1.length [] o b        -- the fraction digits are already in place
+  -- fix C14-decimal-trim-after-rounding: `digits[1..digit_count]` all `0` under `trim_floats` ⇒ `digit_count = 1`
+  -- (reads inside the digits just written: no new index check can fail)
+  let r ← sciBody fmt (trimSci o tr.1).length [] o b        -- the fraction digits are already in place
   writeExponentB fmt feats r.buf r.cursor (sciExp + (if tr.2 then 1 else 0)) o.exp
 
 /-- `algorithm::write_float_negative_exponent` -/
@@ -205,8 +207,10 @@ def posN (need : Nat) (ds : List Nat) (sciExp : Int) (o : WOpts) (b : WBuf) : Re
   let b ← b.blit 0 (chars ds)
   let tr := truncateAndRound ds o
   let b ← b.blit 0 (chars tr.1)
-  let count := tr.1.length
   let leading := sciExp.toNat + 1 + (if tr.2 then 1 else 0)
+  -- fix C14-decimal-trim-after-rounding: `bytes[leading..digit_count]` all `0` under `trim_floats` ⇒ integral
+  let kept := trimPos o leading tr.1
+  let count := kept.length
   if leading ≥ count then do
     let b ← b.fill count leading 48
     if ¬ o.trim then do
@@ -217,7 +221,7 @@ def posN (need : Nat) (ds : List Nat) (sciExp : Int) (o : WOpts) (b : WBuf) : Re
   else do
     -- `&mut bytes[leading..count + 1]`, shift right by one, write the point
     let _ ← b.demand leading (count + 1 - leading)
-    let b ← b.blit (leading + 1) (chars (tr.1.drop leading))
+    let b ← b.blit (leading + 1) (chars (kept.drop leading))
     let b ← b.set leading o.dp
     padZeros b (count + 1) count (minExactDigits count o)
 
@@ -233,12 +237,17 @@ def decimalN (fmt : Format) (feats : Features) (need : Nat) (ds : List Nat) (sci
 
 /-! ## `compact` builds (`compact.rs`) -/
 
-/-- `compact::write_float_scientific` (digits already rounded) -/
-def sciC (fmt : Format) (feats : Features) (ds : List Nat) (sciExp : Int) (o : WOpts) (b : WBuf) : Res Out := do
+/-- `compact::write_float_scientific` once `digit_count` is final -/
+def sciCLayout (fmt : Format) (feats : Features) (ds : List Nat) (sciExp : Int) (o : WOpts) (b : WBuf) : Res Out := do
   let b ← b.set 0 (digitChar (ds.headD 0))
   let b ← b.set 1 o.dp
   let r ← sciBody fmt ds.length (chars ds.tail) o b
   writeExponentB fmt feats r.buf r.cursor sciExp o.exp
+
+/-- `compact::write_float_scientific` (digits already rounded): fix C14-decimal-trim-after-rounding (compact part)
+first drops an all-zero fraction under `trim_floats` (reads inside the 32-byte temporary only) -/
+def sciC (fmt : Format) (feats : Features) (ds : List Nat) (sciExp : Int) (o : WOpts) (b : WBuf) : Res Out :=
+  sciCLayout fmt feats (trimSci o ds) sciExp o b
 
 /-- `compact::write_float_negative_exponent` -/
 def negC (ds : List Nat) (sciExp : Int) (o : WOpts) (b : WBuf) : Res Out := do
@@ -250,10 +259,10 @@ def negC (ds : List Nat) (sciExp : Int) (o : WOpts) (b : WBuf) : Res Out := do
   let b ← b.blit (k + 1) (chars ds)
   padZeros b (k + 1 + count) count (minExactDigits count o)
 
-/-- `compact::write_float_positive_exponent` -/
-def posC (ds : List Nat) (sciExp : Int) (o : WOpts) (b : WBuf) : Res Out := do
-  let count := ds.length
+/-- `compact::write_float_positive_exponent` once `digit_count` is final -/
+def posCLayout (ds : List Nat) (sciExp : Int) (o : WOpts) (b : WBuf) : Res Out := do
   let leading := sciExp.toNat + 1
+  let count := ds.length
   if leading ≥ count then do
     let b ← b.blit 0 (chars ds)
     let b ← b.fill count leading 48
@@ -267,6 +276,11 @@ def posC (ds : List Nat) (sciExp : Int) (o : WOpts) (b : WBuf) : Res Out := do
     let b ← b.set leading o.dp
     let b ← b.blit (leading + 1) (chars (ds.drop leading))
     padZeros b (count + 1) count (minExactDigits count o)
+
+/-- `compact::write_float_positive_exponent`: fix C14-decimal-trim-after-rounding (compact part) first drops the digits
+past the point when they are all zero under `trim_floats` -/
+def posC (ds : List Nat) (sciExp : Int) (o : WOpts) (b : WBuf) : Res Out :=
+  posCLayout (trimPos o (sciExp.toNat + 1) ds) sciExp o b
 
 /-- does the rounded digit string end in `0` (the `debug_assert!(rtrim_char_count(..) == 0 || digit_count == 1)`
 at the top of the compact layout functions) -/
